@@ -448,22 +448,29 @@ fn csv_part(ctx: &RunCtx, report: &mut Report) {
 
 fn slice(tier: Tier) -> Vec<(String, PProblem)> {
     let mut out = vec![];
-    for (name, problems) in all_families(Tier::Quick) {
+    for (name, problems) in all_families(tier) {
         let per = match (name, tier) {
             ("core", Tier::Quick) => 60,
-            ("core", _) => 600,
             ("places", _) => usize::MAX,
             (_, Tier::Quick) => 10,
-            _ => 60,
+            // thorough: every problem of every family
+            _ => usize::MAX,
         };
         let step = (problems.len() / per.clamp(1, problems.len().max(1))).max(1);
         out.extend(problems.into_iter().step_by(step).take(per).map(|p| (name.to_string(), p)));
     }
     // recharge stations, required breaks, time-dependent matrices
-    let step = tier.pick(6, 2);
+    let step = tier.pick(6, 1);
+    if tier != Tier::Quick {
+        out.extend(family_cluster().into_iter().map(|p| ("cluster".to_string(), p)));
+        out.extend(family_cluster_attr().into_iter().map(|p| ("cluster".to_string(), p)));
+        out.extend(family_mixed10().into_iter().map(|p| ("mixed10".to_string(), p)));
+        out.extend(family_line12().into_iter().map(|p| ("line12".to_string(), p)));
+    }
     out.extend(family_recharge().into_iter().step_by(step).map(|p| ("recharge".to_string(), p)));
-    out.extend(family_reqbreak().into_iter().step_by(step * 2).map(|p| ("reqbreak".to_string(), p)));
-    out.extend(family_timedep().into_iter().step_by(step * 2).map(|p| ("timedep".to_string(), p)));
+    let step2 = tier.pick(12, 1);
+    out.extend(family_reqbreak().into_iter().step_by(step2).map(|p| ("reqbreak".to_string(), p)));
+    out.extend(family_timedep().into_iter().step_by(step2).map(|p| ("timedep".to_string(), p)));
     out
 }
 
